@@ -33,6 +33,9 @@ CHECKS = {
  'C12': dict(engine='js-c12', technique='exhaustive sweep of Unicode scalar values x successors x embedding contexts through the real compiler and V8, identity oracle on the delivered string',
    text='Every scalar value below U+3000 plus block boundaries and surrogate / BOM / noncharacter / astral neighbours (quick), every one of the 1,112,064 scalar values (thorough), followed by each of 16 critical successors (digits, hex letters, both quotes, backslash, braces, ampersand, semicolon, u, x, newline), embedded in 15 markup contexts (double / single quoted attribute, class, style, id, slot, data-, data:, mark:, bind: and catch: handler, generic:, extra-attr:, worklet:, static text), as wx:key, template name and static template-is target (looked up), in three string-literal spellings inside expressions, as decimal / hex character references in attribute and text, plus all 2231 named character references. The string the executed code hands to the runtime must equal the denoted string code point for code point.',
    note='Trusted: V8; the spelling rules for characters a context cannot carry raw (&amp; &lt; &quot; &#39; &#123;, backslash escapes). Names in identifier positions are ASCII-only by the parser and are covered by C02 / C04.', ref='4/C12'),
+ 'C04': dict(engine='js-c04', technique='bounded-exhaustive enumeration of model templates x concrete-syntax variants x data environments; generated code run on a recording runtime, compared with a reference renderer that interprets the model',
+   text='The model corpus (about 1300 templates quick, 3300 thorough): every text shape and every attribute family as a single node, as sibling pairs and under element / block / if / for parents; 44 control constructs (block, if / elif / else chains with comments and blanks between branches, for over array / object / string / number with default and renamed variables, keys, for+if, nested for, template definition and use with every data form incl. dynamic and missing targets, slots with static / dynamic names and values, slot-value scopes with aliases, block slot attributes, inline scripts before / after use and inside template definitions) around 4 body kinds; 12 multi-file constructs (include / import / external scripts with relative, parent and absolute paths, local-over-imported and later-over-earlier precedence); 17 expression forms at 26 binding positions; thorough adds every control construct inside every control construct. Each in 9 concrete-syntax variants (quote style, paired tags, padded / multi-line bindings, decimal / hex entity spelling, attributes on separate lines, newlines between nodes), under every environment of the value pool for the names used (exhaustive up to 300 / 600, pairwise cover beyond). The canonical tree (document order; virtual wrappers flattened; per-channel attribute records with normalised names) must equal the reference.',
+   note='Trusted: V8, the recording runtime (substrate B; for-list iteration copied from RangeListManager.updateKeys), the reference renderer (documented semantics on the model). Not asserted: valueless class / style / id, a static wx:if string, class: / style: families, valueless slot values, order of setter calls within an element.', ref='4/C04'),
 }
 
 NOT_YET = {}
